@@ -6,5 +6,6 @@ int main(int argc, char **argv) {
     vf::install_crash_handler();
     RUN("pool_mt", o.threads, true, scn::pool_mt(o, R, T, o.cases));
     RUN("pool_nested", 1, true, scn::pool_nested(o, R, o.cases));
+    RUN("pool_dependent", 1, true, scn::pool_dependent(o, R, o.cases));
     return 0;
 }
